@@ -197,3 +197,24 @@ def install_coop_locks(module, sched):
       setattr(module, name, CoopLock(sched, reentrant, name))
       names.append(name)
   return names
+
+
+def expand_schedule(spec, n_threads=4):
+  """Schedule spec -> list of thread picks.
+
+  {'t': [explicit picks], 's': PRNG seed, 'n': number of generated picks, 'burst': bool}.
+  With 'burst', the generated part is made of runs: one thread is picked and kept for a run whose
+  length is drawn from {1, 2, 5, 20, 100, 400} -- pre-emption in the middle of a short window
+  followed by a long stretch of another thread (a complete call) is what exposes check-then-act
+  races; uniformly random picks almost never produce such stretches."""
+  import random  # pylint: disable=g-import-not-at-top
+  rng = random.Random(spec.get('s') or 1)
+  picks = list(spec.get('t', []))
+  n = spec.get('n', 0)
+  if not spec.get('burst'):
+    return picks + [rng.randrange(n_threads) for _ in range(n)]
+  out = []
+  while len(out) < n:
+    t = rng.randrange(n_threads)
+    out += [t] * rng.choice([1, 1, 2, 5, 20, 100, 400])
+  return picks + out[:max(n, 0)]
